@@ -859,7 +859,9 @@ func serveError(c context.Context, ctx *app.RequestContext, code int, defaultMes
 	ctx.Next(c)
 	if ctx.Response.StatusCode() == code {
 		// if body exists(maybe customized by users), leave it alone.
-		if ctx.Response.HasBodyBytes() || ctx.Response.IsBodyStream() {
+		// (a writer that has taken the response over sends what the handler writes itself:
+		// the default text would be one more piece of that body)
+		if ctx.Response.HasBodyBytes() || ctx.Response.IsBodyStream() || ctx.Response.GetHijackWriter() != nil {
 			return
 		}
 		ctx.Response.Header.Set("Content-Type", "text/plain")
